@@ -303,5 +303,4 @@ class Humanoid(AbstractMujocoEnv[Float[Array, "..."], Float[Array, "..."]]):
         contact_forces = data.cfrc_ext
         raw_cost = jnp.sum(jnp.square(contact_forces))
         min_cost, max_cost = self.contact_cost_range
-        clipped = jnp.clip(raw_cost, min_cost, max_cost)
-        return self.contact_cost_weight * clipped
+        return jnp.clip(self.contact_cost_weight * raw_cost, min_cost, max_cost)
